@@ -1182,7 +1182,11 @@ fn update_local_file_header<T: Write + io::Seek>(
     file: &ZipFileData,
 ) -> ZipResult<()> {
     const CRC32_OFFSET: u64 = 14;
-    writer.seek(io::SeekFrom::Start(file.header_start + CRC32_OFFSET))?;
+    let crc32_position = file
+        .header_start
+        .checked_add(CRC32_OFFSET)
+        .ok_or(ZipError::InvalidArchive("Local file header offset is out of range"))?;
+    writer.seek(io::SeekFrom::Start(crc32_position))?;
     writer.write_u32::<LittleEndian>(file.crc32)?;
     if file.large_file {
         update_local_zip64_extra_field(writer, file)?;
@@ -1343,8 +1347,11 @@ fn update_local_zip64_extra_field<T: Write + io::Seek>(
     writer: &mut T,
     file: &ZipFileData,
 ) -> ZipResult<()> {
-    let zip64_extra_field = file.header_start + 30 + file.file_name.as_bytes().len() as u64;
-    writer.seek(io::SeekFrom::Start(zip64_extra_field + 4))?;
+    let zip64_extra_field = file
+        .header_start
+        .checked_add(30 + file.file_name.as_bytes().len() as u64 + 4)
+        .ok_or(ZipError::InvalidArchive("Local file header offset is out of range"))?;
+    writer.seek(io::SeekFrom::Start(zip64_extra_field))?;
     writer.write_u64::<LittleEndian>(file.uncompressed_size)?;
     writer.write_u64::<LittleEndian>(file.compressed_size)?;
     // Excluded fields:
